@@ -69,7 +69,12 @@ def ensure_vgen():
     return vgen
 
 
+# rewrites applied in every build (the shims pass through when no harness hooks them)
+BASE_VGEN = ["-os", "pkg/resmgr/cache/cache.go"]
+
+
 def gen_overlay(flags):
+    flags = BASE_VGEN + list(flags)
     vgen = ensure_vgen()
     key = tree_hash(flags)
     out = os.path.join(WORK, "ov-" + key)
